@@ -114,3 +114,23 @@ Proof.
   - apply Permutation_sym. apply (Permutation_cons_app [1; 2] []). apply Permutation_refl.
 Qed.
 Print Assumptions C13_topo_ex.
+
+(* the project's languageGlobs map: in whatever order the entries come out of the hash map (distinct names), the
+   language a path gets is the same - also when several configured languages claim it (fix 86ecb80) *)
+Theorem C13_language_globs_perm :
+  forall regs regs' f, Permutation regs regs' -> NoDup (map fst regs) ->
+    lang_globs_from_path regs f = lang_globs_from_path regs' f.
+Proof.
+  intros regs regs' f Hp Hnd. unfold lang_globs_from_path, registered.
+  rewrite (PermProofs.C13_sort_kv_perm _ regs regs' Hp Hnd). reflexivity.
+Qed.
+Print Assumptions C13_language_globs_perm.
+
+(* non-vacuity: `tsx` and `javascript` both claim glob 0; either order of the entries answers javascript (name order) *)
+Example C13_language_globs_ex :
+  let f := {| ff_lang := None; ff_globs := [0%N] |} in
+  let js := ([106;97;118;97;115;99;114;105;112;116]%N, (0%N, [0%N])) in
+  let tsx := ([116;115;120]%N, (2%N, [0%N])) in
+  lang_globs_from_path [tsx; js] f = Some 0%N /\ lang_globs_from_path [js; tsx] f = Some 0%N.
+Proof. vm_compute. split; reflexivity. Qed.
+Print Assumptions C13_language_globs_ex.
